@@ -229,7 +229,11 @@ def walkNode (c : Cfg) (f : Faults) (s : St) (p : Path) : Node → St × Err
         else
           let (s, e) := walkEntries c f s p es 0
           popOnExit c s p e
-/-- the `for { dirs.next() … }` loop; `k` = index of the `ReadDir(1)` call -/
+/-- the `for { dirs.next() … }` loop; `k` = index of the `ReadDir(1)` call.
+When the directory handle does not implement `fs.ReadDirFile`, `readDir` preloads the whole listing with ONE `fsys.ReadDir`
+call and `next` serves it from memory: that is this same loop under a fault plan in which only read 0 of a directory can fail
+(a failing `fsys.ReadDir` is reported by the second call before any entry is visited, exactly like a failing read 0); the
+harness exercises that fallback (`nrd=`) with such plans. -/
 def walkEntries (c : Cfg) (f : Faults) (s : St) (p : Path) : List (String × Node) → Nat → St × Err
   | [], k =>
     if f.readEntryFail p k then fserrCall c s      -- the call that would have returned io.EOF fails instead
